@@ -21,7 +21,7 @@ from pwlib.engine import Case
 from pwlib.proto import Line
 
 ID = "C10"
-TARGETS = ["PW.Props.C10"]
+TARGETS = ["PW.Props.C10", "PW.Props.C10Deriv", "PW.Props.C10Euler"]
 RULE = ("rotation vectors: zero, tiny below/above eps=2^-52, integer lattice, random |r|<pi, pi-10^-k and pi+10^-k (k=1..12), "
         "beyond pi, many turns (|r| up to 1e4), each as (3,), (3,1) or (1,3) (and (1,1,3)), calculate_jacobian on/off, called "
         "directly or through cv2_rodrigues; matrices: exact rational rotations from integer quaternions, half-turns about all 26 "
